@@ -72,6 +72,53 @@ func payload(index, term, salt uint64, n int) []byte {
 	return b
 }
 
+// genPrefixDeletion: 12 MiB payloads roll the entry file every two entries (32 MiB per file); after three or four
+// rolled files a DeleteBefore (with or without a snapshot first) removes at least two of them in one call; small
+// appends, a sync and a reopen follow.  Every journal boundary of such a short history is a crash point.
+func genPrefixDeletion(r *core.Rand, c RCase) RCase {
+	c.Crash = true
+	if c.MaxCrash < 120 {
+		c.MaxCrash = 120
+	}
+	big := func() int { return r.Range(11<<20, 13<<20) }
+	idx := uint64(1)
+	term := uint64(1)
+	nfiles := r.Range(3, 4)
+	for f := 0; f < nfiles; f++ {
+		op := ROp{Kind: "save", First: idx, Salt: r.Uint64() % 1000000, Terms: []uint64{term, term}, Sizes: []int{big(), big()}}
+		if r.Bool(0.5) {
+			op.HS = []uint64{term, 1, idx}
+		}
+		c.Ops = append(c.Ops, op)
+		idx += 2
+		if r.Intn(3) == 0 {
+			term++
+		}
+	}
+	last := idx - 1
+	// one more entry so that the newest rolled file is not the current one
+	c.Ops = append(c.Ops, ROp{Kind: "save", First: idx, Salt: r.Uint64() % 1000000, Terms: []uint64{term}, Sizes: []int{r.Range(1, 200)}})
+	last = idx
+	// delete up to an index in the third file or later: at least two files go in one call
+	del := uint64(5) + uint64(r.Intn(int(last-5)+1))
+	if r.Bool(0.5) {
+		c.Ops = append(c.Ops, ROp{Kind: "snap", Index: del, SnapN: r.Range(0, 100)})
+	}
+	c.Ops = append(c.Ops, ROp{Kind: "del", Index: del})
+	for i, n := 0, r.Range(1, 3); i < n; i++ {
+		switch r.Intn(3) {
+		case 0:
+			c.Ops = append(c.Ops, ROp{Kind: "save", First: last + 1, Salt: r.Uint64() % 1000000, Terms: []uint64{term}, Sizes: []int{r.Range(0, 300)}})
+			last++
+		case 1:
+			c.Ops = append(c.Ops, ROp{Kind: "sync"})
+		case 2:
+			c.Ops = append(c.Ops, ROp{Kind: "reopen"})
+		}
+	}
+	return c
+}
+
 // Gen draws a history.  A small shadow model keeps the generated operations legal
 // for the raft storage contract (no gaps, monotone terms, snapshot inside the log).
 func (worldR) Gen(r *core.Rand, env *core.Env) RCase {
@@ -94,6 +141,12 @@ func (worldR) Gen(r *core.Rand, env *core.Env) RCase {
 		c.MaxCrash = 250
 	}
 	c.CrashSeed = r.Uint64()
+	// one history in 14 (decided by a generator of its own, so that the other histories are what their seeds gave
+	// before): several entry files + a prefix deletion that removes two or more of them in one call (seeded change
+	// C17-d: the removals must leave a gap-free log wherever the process dies between them)
+	if fr := core.NewRand(c.CrashSeed ^ 0x70726566); fr.Intn(14) == 0 {
+		return genPrefixDeletion(fr, c)
+	}
 	var last, first, snapIdx uint64 // shadow
 	first = 1
 	terms := map[uint64]uint64{}
